@@ -349,6 +349,7 @@ func rulesC02(w *World, r *Report) {
 	w.ruleHeaderOctets(r, "C02.R2 container headers conform", allowed)
 	w.ruleListCount(r, "C02.R2 declared count = loop bound")
 	w.ruleTypeSlots(r, "C02.R7 type slots: literal, or numbered like the decoder numbers them")
+	w.ruleWriterProductions(r, "C02.R8 every successful writer path spells one production")
 	if fn := w.fn("(*Encoder).writeList"); fn != nil {
 		w.ruleCompactHeaders(r, "C02.R2 compact list header carries the true length", fn, 0x70, 0x77)
 	}
